@@ -43,8 +43,12 @@ def finite(a):
 
 
 # ----------------------------------------------------------------------------- constructed problems
-def gen_design(rng, r, signed, dens=8):
-    """m x r design with small dyadic entries, Gram matrix of full rank and cond <= 100"""
+def gen_design(rng, r, signed, dens=8, diag=False):
+    """m x r design with small dyadic entries, Gram matrix of full rank and cond <= 100
+    (diag: a diagonal design, so that block solutions hit exact zeros when the right-hand side has zeros)"""
+    if diag:
+        U = np.diag([rng.randint(4, 16) / 8 for _ in range(r)])
+        return U, U.T @ U
     for _ in range(400):
         m = r + rng.randint(1, 3) + (r if rng.random() < 0.7 else 0)
         lo = -dens if signed else 0
@@ -57,20 +61,27 @@ def gen_design(rng, r, signed, dens=8):
     return U, U.T @ U
 
 
-def gen_problem(rng, r, n, signed, l1, l2, style=None):
+def gen_problem(rng, r, n, signed, l1, l2, style=None, diag=False, scale=1.0):
     """(U, G, B, X, MU): X >= 0, MU >= 0, X*MU = 0, B = G X - MU + l1 + 2 l2 X  (all exactly representable),
-    so X is the exact minimiser of sum_j x_j'Gx_j/2 - b_j'x_j + l1 sum x_j + l2 sum x_j^2 over x >= 0."""
-    U, G = gen_design(rng, r, signed)
+    so X is the exact minimiser of sum_j x_j'Gx_j/2 - b_j'x_j + l1 sum x_j + l2 sum x_j^2 over x >= 0.
+    styles: mixed / interior / all_active / degenerate (some coordinates with x* = 0 AND zero multiplier) /
+    zero_degenerate (x* = 0 everywhere, some multipliers zero: the largest entry of -gradient at 0 is exactly 0).
+    scale: a power of two applied to (X, MU) (small problems: the cold-start rescaling denominator gets below 1)."""
+    U, G = gen_design(rng, r, signed, diag=diag)
     X = np.zeros((r, n)); MU = np.zeros((r, n))
     style = style or rng.choice(["mixed", "mixed", "mixed", "interior", "all_active", "degenerate"])
     for i in range(r):
         for j in range(n):
             c = rng.random()
-            if style == "interior" or (style in ("mixed", "degenerate") and c < 0.5):
+            if style == "zero_degenerate":
+                if c < 0.6:
+                    MU[i, j] = rng.randint(1, 32) / 8
+            elif style == "interior" or (style in ("mixed", "degenerate") and c < 0.5):
                 X[i, j] = rng.randint(1, 32) / 8
             elif style == "all_active" or c < (0.85 if style == "degenerate" else 1.0):
                 MU[i, j] = rng.randint(1, 32) / 8
             # degenerate: both zero (x* = 0 with zero multiplier)
+    X *= scale; MU *= scale
     B = G @ X - MU + l1 + 2 * l2 * X
     return dict(U=U, G=G, B=B, X=X, MU=MU, l1=l1, l2=l2, r=r, n=n, signed=signed, style=style)
 
@@ -205,8 +216,8 @@ def inputs_json(p, **kw):
 # ----------------------------------------------------------------------------- case generation
 def tiers(tier):
     if tier == "quick":
-        return dict(nprob=30, npass=40, nfista=16, nas=50, nadmm=10, aswarm=80)
-    return dict(nprob=240, npass=400, nfista=140, nas=600, nadmm=60, aswarm=1500)
+        return dict(nprob=30, npass=40, nfista=24, nas=56, nadmm=10, aswarm=80)
+    return dict(nprob=240, npass=400, nfista=160, nas=640, nadmm=60, aswarm=1500)
 
 
 def dyadic_start(rng, r, n, kind):
@@ -412,13 +423,23 @@ def run(chk):
         if x0.max() > 0:
             as_point(chk, p, 0, x0, active_set_nnls, add_case, conv_case, light=True)
 
+    # degenerate cases: exact zeros in the block solutions (diagonal UtU, zero multipliers), cold and fully positive warm starts
+    for t in range(max(6, T["aswarm"] // 12)):
+        r = rng.randint(1, 6)
+        p = gen_problem(rng, r, 1, True, 0.0, 0.0, style=rng.choice(["degenerate", "zero_degenerate"]), diag=rng.random() < 0.7)
+        p["Xs"] = p["X"]
+        as_point(chk, p, 0, None, active_set_nnls, add_case, conv_case, light=True)
+        as_point(chk, p, 0, dyadic_start(rng, r, 1, "dense")[:, 0], active_set_nnls, add_case, conv_case, light=True)
+
     # ---------------- B. HALS passes: model vs implementation from the same start
     for t, (r, n) in enumerate(sizes(T["npass"])):
         signed = rng.random() < 0.5
         l1 = rng.choice([None, None, 0.25, 1.0, 0.0]); l2 = rng.choice([None, None, 0.125, 0.5])
-        p = gen_problem(rng, r, n, signed, l1 or 0.0, l2 or 0.0, style=rng.choice([None, None, "all_active"]))
-        G, B = p["G"].copy(), p["B"]
         kind = rng.choice(["dense", "sparse", "zero", "infeasible", "cold", "cold"])
+        # cold starts: problems of different magnitude (the rescaling denominator sum(UtU * V V^T) above and below 1)
+        scale = rng.choice([1.0, 2.0 ** -3, 2.0 ** -6]) if kind == "cold" and not (l1 or l2) else 1.0
+        p = gen_problem(rng, r, n, signed, l1 or 0.0, l2 or 0.0, style=rng.choice([None, None, "all_active"]), scale=scale)
+        G, B = p["G"].copy(), p["B"]
         eps = rng.choice([0.0, 0.0, 0.0, 2.0 ** -10, 0.5])
         nz = rng.random() < 0.2
         if nz and rng.random() < 0.3 and r > 1 and kind != "cold":
@@ -468,7 +489,7 @@ def run(chk):
     for t, (r, n) in enumerate(sizes(T["nfista"])):
         p = gen_problem(rng, r, n, rng.random() < 0.5, rng.choice(L1), rng.choice(L2))
         G, B = p["G"], p["B"]
-        K = rng.choice([1, 2, 3, 4, 4])
+        K = rng.choice([1, 2, 3, 4, 4, 4])
         nonneg = rng.random() < 0.85
         eps = rng.choice([0.0, 1e-8, 0.25])
         tol = rng.choice([0.0, 0.0, 0.5])
@@ -501,7 +522,10 @@ def run(chk):
     as_inputs = [(p, x0, 100) for p, x0 in as_corpus]
     for t in range(T["nas"]):
         r = rng.randint(1, 8)
-        p = gen_problem(rng, r, 1, rng.random() < 0.5, 0.0, 0.0)
+        if t % 8 == 0:     # exact zeros in the block solutions
+            p = gen_problem(rng, r, 1, True, 0.0, 0.0, style=rng.choice(["degenerate", "zero_degenerate"]), diag=rng.random() < 0.7)
+        else:
+            p = gen_problem(rng, r, 1, rng.random() < 0.5, 0.0, 0.0)
         x0 = None
         if rng.random() < 0.6:
             x0 = dyadic_start(rng, r, 1, rng.choice(["dense", "sparse"]))[:, 0]
